@@ -457,6 +457,18 @@ func (n cnode) cond(part string, nth int) cnode {
 	return n.pick("condition containing `"+part+"`", nth, found)
 }
 
+// rangeOver: the expression ranged over by the only `for …, val := range X` whose value variable is `val`
+func (n cnode) rangeOver(val string) cnode {
+	var found []ast.Node
+	ast.Inspect(n.n, func(m ast.Node) bool {
+		if x, ok := m.(*ast.RangeStmt); ok && x.Value != nil && render(x.Value) == val {
+			found = append(found, x.X)
+		}
+		return true
+	})
+	return n.pick("range loop with value "+val, -1, found)
+}
+
 // then: the body of the nth `if` whose rendered condition contains `part`
 func (n cnode) then(part string, nth int) cnode {
 	var found []ast.Node
